@@ -37,7 +37,7 @@ BUILD_SYSTEMS = [0, 1, 2, 4, 5, 8]   # systems with build metadata
 
 def pools(ctx):
     rng = ctx.rng
-    npools = ctx.scale(1, 12)
+    npools = ctx.scale(2, 14)
     size = ctx.scale(110, 260)
     out = []
     for sysi in range(9):
@@ -49,18 +49,62 @@ def pools(ctx):
                 3: [b"0.1.0", b"00.0release", b"0.1", b"1.01", b"1.1", b"1.0-alpha-1", b"1.0-a1", b"1-sp", b"1-sp-1", b"1.0-SNAPSHOT"],
                 6: [b"1.0", b"1.0.0", b"1.0a1.post0", b"1.0a1", b"1.0.post1+a", b"1.0.post1+b", b"1.0.dev0+x", b"1.0.dev0", b"1!0.5", b"1.0+ABC", b"1.0+abc"],
                 4: [b"1.2.3-alpha.01", b"1.2.3-alpha.1", b"v1.2.3", b"1.2.3-1", b"1.2.3--1"],
-                5: [b"1.0.0-ALPHA", b"1.0.0-alpha", b"1.0.0.0", b"1.0.0-2147483648", b"1.0.0-2147483647", b"1.0.0-a.B", b"1.0.0-A.b"],
+                5: [b"1.0.0-ALPHA", b"1.0.0-alpha", b"1.0.0-beta", b"1.0.0-Beta", b"1.0.0-Beta.1", b"1.0.0-beta.1", b"1.0.0.0", b"1.0.0-2147483648", b"1.0.0-2147483647", b"1.0.0-a.B", b"1.0.0-A.b"],
             }.get(sysi, [b"1.2.3", b"1.2", b"1", b"1.2.3-alpha", b"1.2.3-alpha.1", b"1.2.3+b"])
             pool.update(seeds)
             tries = 0
+            cs = versions.cores(rng, sysi)
             while len(pool) < size and tries < size * 20:
                 tries += 1
-                pool.add(versions.gen(rng, sysi))
+                b = versions.with_core(rng, sysi, cs)
+                if sysi == 3 and not versions.in_dmvn(b):
+                    continue
+                pool.add(b)
+                # related spellings: the pairs on which comparators go wrong are rarely drawn independently
+                for v in versions.variants(rng, sysi, b):
+                    if len(pool) < size and (sysi != 3 or versions.in_dmvn(v)):
+                        pool.add(v)
             out.append((sysi, sorted(pool)))
     return out
 
 
+def run_parts(ctx):
+    import glob, importlib, os
+    here = os.path.dirname(os.path.abspath(__file__))
+    for f in sorted(glob.glob(os.path.join(here, "parts", "*.py"))):
+        name = os.path.basename(f)[:-3]
+        if name.startswith("_"):
+            continue
+        fn = getattr(importlib.import_module("props.parts." + name), "c01", None)
+        if fn:
+            fn(ctx)
+
+
+def exotic_maven(ctx):
+    """compare correspondence on Maven strings outside D_mvn (the order laws are not claimed there)"""
+    rng = ctx.rng
+    pool = sorted({versions.maven_exotic(rng) for _ in range(ctx.scale(300, 3000))} |
+                  {b"1.2.3.jre8", b"1.2.3-rc1", b"1.2.3", b"1.2.3.SP1", b"1.2.3-SNAPSHOT", b"2..milestone", b"2.m-foo", b"1.x", b"1.0.0.Beta1"})[:ctx.scale(160, 400)]
+    line = ctx.impl("sv_pool", [sx([3, pool])])[0]
+    parsed, m, unstable, laws = parse_sx(line)
+    okidx = [i for i, p in enumerate(parsed) if p[0] == b"ok"]
+    strs = [pool[i] for i in okidx]
+    dumps = [parsed[i][1] for i in okidx]
+    n = len(strs)
+    args = [sx([dumps[i], dumps[j]]) for i in range(n) for j in range(n)]
+    mo = ctx.model("svm_cmp", args)
+    ctx.count("corr:svm_cmp:maven_exotic", len(args))
+    nd = 0
+    for k, line in enumerate(mo):
+        if line != '("ok" %d)' % m[k]:
+            nd += 1
+            if nd <= 20:
+                ctx.divergence("svm_cmp(maven, outside D_mvn)", {"a": strs[k // n], "b": strs[k % n]}, m[k], line)
+
+
 def run(ctx):
+    run_parts(ctx)
+    exotic_maven(ctx)
     ps = pools(ctx)
     outs = ctx.impl("sv_pool", [sx([sysi, pool]) for sysi, pool in ps], shards=min(16, len(ps)))
     model_args = []
@@ -110,6 +154,8 @@ def run(ctx):
     # correspondence: model compare on the dumped structures == Go Compare
     mo = ctx.model("svm_cmp", model_args)
     ctx.count("corr:svm_cmp", len(model_args))
+    step = max(1, len(model_args) // 80)
+    lib.kernel_crosscheck(ctx, [("svm_cmp", model_args[i], mo[i]) for i in range(0, len(model_args), step)])
     nd = 0
     for (name, a, b, c), line in zip(expect, mo):
         if line != '("ok" %d)' % c:
